@@ -225,7 +225,7 @@ def scale_dependent_compare(fi: FunctionInfo, cond: ast.AST, vecs: Tuple[str, ..
             continue
         l, r = _degrees(c.left, vecs), _degrees(c.comparators[0], vecs)
         for a, b in ((l, r), (r, l)):
-            if isinstance(a, tuple) and all(x > 0 for x in a) and b in ("zero", "eps"):
+            if isinstance(a, tuple) and sum(1 for x in a if x > 0) >= 2 and b in ("zero", "eps"):
                 return c, a
     return None
 
@@ -262,8 +262,33 @@ def expand_guard(fi, e):
     return R().visit(_copy.deepcopy(e))
 
 
-def check_guard(ctx, res, ob: GuardOb, rule="R15.1", prop_res=None) -> bool:
-    fi = ctx.repo.fn(ob.fn, ob.module)
+def _must_pass_helpers(ctx, fi) -> List[FunctionInfo]:
+    """methods of the same object (or functions of the same module) that every normal path of fi calls"""
+    g = ctx.cfg(fi)
+    out = []
+    for n in g.nodes.values():
+        if n.kind != "stmt" or not isinstance(n.ast, (ast.Expr, ast.Assign)):
+            continue
+        c = n.ast.value
+        if not isinstance(c, ast.Call):
+            continue
+        callee = None
+        if isinstance(c.func, ast.Attribute) and isinstance(c.func.value, ast.Name) and c.func.value.id == fi.self_name and fi.cls is not None:
+            callee = fi.cls.lookup(c.func.attr)
+        elif isinstance(c.func, ast.Name):
+            b = fi.resolve(c.func.id)
+            if b is not None and b.kind == "func" and b.target.module is fi.module:
+                callee = b.target
+        if callee is None or callee is fi:
+            continue
+        if g.must_pass(g.entry, g.exit, through_nodes={n.id}):
+            out.append(callee)
+    return out
+
+
+def check_guard(ctx, res, ob: GuardOb, rule="R15.1", prop_res=None, _fi=None, _depth=0) -> bool:
+    fi = _fi if _fi is not None else ctx.repo.fn(ob.fn, ob.module)
+    emit = _fi is None
     g = ctx.cfg(fi)
     guards = rejection_guards(ctx, fi)
     good = []
@@ -323,6 +348,20 @@ def check_guard(ctx, res, ob: GuardOb, rule="R15.1", prop_res=None) -> bool:
         good.append((nid, rej, acc))
     where = fi.where()
     construct = "%s: %s" % (fi.short, ob.label)
+    if not good and _depth < 3:
+        # the validation may live in a helper that every normal path calls (`self._check_closed_and_oriented()`)
+        for callee in _must_pass_helpers(ctx, fi):
+            if check_guard(ctx, res, ob, rule, prop_res, _fi=callee, _depth=_depth + 1):
+                if emit:
+                    res.ob(rule, where, construct, True, "validated in %s, which every normal path of %s calls" % (callee.short, fi.short))
+                return True
+    if not emit:
+        if not good:
+            return False
+        cut = {(nid, y, l) for nid, rej, acc in good for y, l in g.succ[nid] if l == acc}
+        if ob.loop:
+            return _loop_guard(ctx, fi, g, good, cut, ob)[0]
+        return g.path(g.entry, g.exit, avoid_edges=cut) is None
     if not good:
         why = "no rejection guard for this obligation" + (": " + "; ".join(rejected_detail) if rejected_detail else "")
         res.ob(rule, where, construct, False, why)
@@ -368,6 +407,11 @@ def _loop_guard(ctx, fi, g, good, cut, ob) -> Tuple[bool, str]:
             if not (itdeps & set(ob.iterates)):
                 tried.append("loop at line %d does not iterate %s" % (h.ast.lineno, sorted(ob.iterates)))
                 continue
+        # the check is about the element of this iteration: it depends on the loop variable
+        tnames = {x.id for x in ast.walk(h.ast.target) if isinstance(x, ast.Name)}
+        if tnames and not any(cond_deps(ctx, fi, g.nodes[x[0]].ast) & tnames for x in inside):
+            tried.append("the check in the loop at line %d does not depend on the loop variable %s" % (h.ast.lineno, sorted(tnames)))
+            continue
         # inside the body every path from the body entry back to the header (or out) crosses an accepting edge
         starts = [y for y, l in g.succ[h.id] if l == "iter"]
         r = g.reach(starts, avoid_edges=cut, avoid_nodes=set())
@@ -424,11 +468,11 @@ EXPLICIT = [
     GuardOb("ConvexPolygon.Parallelogram", "dependent edge vectors", "a parallelogram with dependent edge vectors must be rejected",
             inputs_all={"v1", "v2"}, eps=True, direction_pair=("v1", "v2")),
     GuardOb("ConvexPolyhedron.Parallelepiped", "dependent v1, v2", "a parallelepiped with dependent edge vectors must be rejected",
-            inputs_all={"v1", "v2"}, eps=True, direction_pair=("v1", "v2")),
+            inputs_all={"v1", "v2"}, eps=True, direction_pair=("v1", "v2", "v3")),
     GuardOb("ConvexPolyhedron.Parallelepiped", "dependent v1, v3", "a parallelepiped with dependent edge vectors must be rejected",
-            inputs_all={"v1", "v3"}, eps=True, direction_pair=("v1", "v3")),
+            inputs_all={"v1", "v3"}, eps=True, direction_pair=("v1", "v2", "v3")),
     GuardOb("ConvexPolyhedron.Parallelepiped", "dependent v2, v3", "a parallelepiped with dependent edge vectors must be rejected",
-            inputs_all={"v2", "v3"}, eps=True, direction_pair=("v2", "v3")),
+            inputs_all={"v2", "v3"}, eps=True, direction_pair=("v1", "v2", "v3")),
     GuardOb("Pyramid.__init__", "apex in base plane", "a pyramid whose apex lies in its base plane must be rejected",
             inputs_all={"p", "cp"}, eps=True, container_type="Plane"),
     GuardOb("ConvexPolyhedron.__init__", "outward normals", "a face set that is not a closed convex polyhedron must be rejected (normal check)",
@@ -440,7 +484,7 @@ EXPLICIT = [
     GuardOb("get_segment_from_point_list", "at least two points", "the collinear-points helper must reject fewer than two points",
             inputs_any={"point_list"}, min_accept=2, subject="point_list", module="calc.aux_calc"),
     GuardOb("get_segment_from_point_list", "collinearity of every further point",
-            "the collinear-points helper must reject non-collinear points", inputs_all={"point_list", "vi"},
+            "the collinear-points helper must reject non-collinear points", inputs_all={"point_list"},
             eps=True, loop=True, iterates={"point_list"}, module="calc.aux_calc"),
 ]
 
@@ -717,3 +761,55 @@ def run(ctx, res):
                      % (q.split(":")[-1], ln, text))
     res.undecided_ob("zero normal / collinear plane points / <3 distinct vertices are rejected only implicitly (ZeroDivisionError, IndexError)")
     res.undecided_ob("sufficiency of the guards (Euler's formula does not imply closedness; coplanar parallelepiped edges)")
+
+
+def vector_parity(e: ast.AST, v: str) -> Optional[str]:
+    """'even' / 'odd' / 'mixed' behaviour of an expression when the vector named v is replaced by -v (None: unknown)"""
+    def x(a, b):
+        if a is None or b is None:
+            return None
+        if "mixed" in (a, b):
+            return "mixed"
+        return "even" if a == b else "odd"
+
+    if isinstance(e, ast.Name):
+        return "odd" if e.id == v else "even"
+    if isinstance(e, ast.Constant):
+        return "even"
+    if isinstance(e, ast.UnaryOp) and isinstance(e.op, (ast.USub, ast.UAdd)):
+        return vector_parity(e.operand, v)
+    if isinstance(e, ast.BinOp):
+        l, r = vector_parity(e.left, v), vector_parity(e.right, v)
+        if isinstance(e.op, (ast.Mult, ast.Div)):
+            return x(l, r)
+        if isinstance(e.op, (ast.Add, ast.Sub)):
+            if l is None or r is None:
+                return None
+            return l if l == r else "mixed"
+        if isinstance(e.op, ast.Pow) and isinstance(e.right, ast.Constant) and isinstance(e.right.value, int):
+            return "even" if e.right.value % 2 == 0 else l
+        return None
+    if isinstance(e, ast.Call):
+        f = e.func
+        name = f.id if isinstance(f, ast.Name) else (f.attr if isinstance(f, ast.Attribute) else None)
+        if name in ("abs", "fabs"):
+            p = vector_parity(e.args[0], v) if e.args else None
+            return "even" if p in ("even", "odd") else p
+        if name in ("get_eps", "zero", "get_sig_figures") and not e.args:
+            return "even"
+        if isinstance(f, ast.Attribute):
+            r = vector_parity(f.value, v)
+            if name in ("length", "parallel", "orthogonal") :
+                ps = [r] + [vector_parity(a, v) for a in e.args]
+                return None if any(p is None for p in ps) else ("mixed" if "mixed" in ps else "even")
+            if name in ("normalized", "unit") and not e.args:
+                return r
+            if name == "cross" and len(e.args) == 1:
+                return x(r, vector_parity(e.args[0], v))
+        if isinstance(f, ast.Name) and name in ("parallel", "orthogonal") and len(e.args) == 2:
+            ps = [vector_parity(a, v) for a in e.args]
+            return None if any(p is None for p in ps) else ("mixed" if "mixed" in ps else "even")
+        return None
+    if isinstance(e, ast.Attribute):
+        return vector_parity(e.value, v) if not (isinstance(e.value, ast.Name) and e.value.id == v) else None
+    return None
